@@ -457,6 +457,13 @@ class ClientSSM(SSM):
         if apdu.apduType == SegmentAckPDU.pduType:
             if _debug: ClientSSM._debug("    - segment ack")
 
+            # until the first ack only the first segment is outstanding, an
+            # ack for anything else belongs to an earlier exchange
+            if (self.actualWindowSize is None) and (apdu.apduSeq != self.initialSequenceNumber % 256):
+                if _debug: ClientSSM._debug("    - stale segment ack")
+                self.restart_timer(self.segmentTimeout)
+                return
+
             # actual window size is provided by server
             self.actualWindowSize = apdu.apduWin
 
@@ -1105,6 +1112,13 @@ class ServerSSM(SSM):
         # client is ready for the next segment
         if (apdu.apduType == SegmentAckPDU.pduType):
             if _debug: ServerSSM._debug("    - segment ack")
+
+            # until the first ack only the first segment is outstanding, an
+            # ack for anything else belongs to an earlier exchange
+            if (self.actualWindowSize is None) and (apdu.apduSeq != self.initialSequenceNumber % 256):
+                if _debug: ServerSSM._debug("    - stale segment ack")
+                self.restart_timer(self.segmentTimeout)
+                return
 
             # actual window size is provided by client
             self.actualWindowSize = apdu.apduWin
